@@ -338,6 +338,16 @@ def dispatch (f : List String) : String :=
           | some k, _ => s!"ok win {k}"
           | none, some k => s!"ok lose {k}"
           | none, none => "ok none")
+  | ["sseq", fen, d] => withFen fen fun p =>
+      -- all legal move sequences of length d (shorter when the game ends) from the position
+      let rec go (sp : Spec.Pos) (d : Nat) (pre : List String) : List String :=
+        match d with
+        | 0 => [" ".intercalate pre.reverse]
+        | d + 1 =>
+          let ms := Spec.legalMoves sp
+          if ms.isEmpty then (if pre.isEmpty then [] else [" ".intercalate pre.reverse])
+          else ms.flatMap fun m => go (Spec.apply sp m) d (specMoveStr m :: pre)
+      pure ("ok " ++ ";".intercalate (go (abs p) d.toNat! []))
   | ["slegal", fen] => withFen fen fun p => pure s!"ok {b2i (Spec.Legal (abs p))}"
   | _ => "badop"
 
